@@ -15,7 +15,7 @@ THEOREMS = [
     "C03_no_threshold",
     "C03_stopIndex_spec",
 ]
-CORR_OPS = ["gmm_mstep_ml:fit1", "gmm_mstep_ml:m_step", "em_stop:numpy", "em_stop:dask"]
+CORR_OPS = ["gmm_mstep_ml:fit1", "gmm_mstep_ml:m_step", "em_stop:numpy", "em_stop:dask", "em_stop:refit"]
 RULE = ("K: (machine, data or synthetic statistics, 8 switch combinations, count/variance floors sometimes active) -> one M-step; "
         "O: recorded criterion trajectories of real fits (NumPy and Dask) x thresholds (None, 0, exactly an observed relative change "
         "and its two float neighbours, values 1e-6 away) x iteration caps; distinct = hash of inputs; non-trivial = >= 2 components "
@@ -210,11 +210,48 @@ def corr_stop(ctx, bad, use_dask):
                         "model": o, "impl": {"iterations": k_impl, "criteria": crit, "criteria_no_threshold": full}})
 
 
+def refit_pair(ctx, i):
+    """fit a machine on A, then fit the *same object* on B; a fresh machine started from the same parameters is the reference"""
+    scA = train_scenario(ctx, int(ctx.rng.integers(0, 8)))
+    if not (scA["um"] or scA["uv"] or scA["uw"]):
+        scA["um"] = True
+    cap = int(ctx.rng.integers(3, 8))
+    thr = float(ctx.rng.choice([0.5, 0.1, 1e-2, 1e-4]))
+    xB = scA["x"] * float(ctx.rng.choice([1.0, 0.5, 2.0])) + (0.3 if i % 2 else 0.0)
+    g = mk(scA, max_fitting_steps=cap, convergence_threshold=thr)
+    r0 = core.impl(lambda: g.fit(scA["x"]))
+    start = params_of(g) if not isinstance(r0, core.ImplError) else None
+    with Recorder() as rec:
+        r1 = core.impl(lambda: g.fit(xB))
+    refit = r1 if isinstance(r1, core.ImplError) else (list(rec.crit), params_of(g))
+    return scA, xB, cap, thr, start, refit
+
+
+def corr_refit(ctx, bad):
+    lines, meta = [], []
+    for i in range(ctx.budget(12, 100)):
+        scA, xB, cap, thr, start, refit = refit_pair(ctx, i)
+        if start is None:
+            continue
+        scB = dict(scA, **start)
+        full, _ = run_fit(scB, xB, cap, None)
+        lines.append({"op": "em_stop", "thr": core.bits(thr), "fuel": cap, "crit": core.enc(np.array(full if not isinstance(full, core.ImplError) else [0.0]))})
+        meta.append((scA, xB, cap, thr, full, refit))
+    for (scA, xB, cap, thr, full, refit), o in zip(meta, core.drive(lines)):
+        ctx.traces += 1
+        ctx.count("em_stop:refit")
+        ctx.case(["refit", core.tolist(xB), cap, thr], nontrivial=True, sample={"op": "refit", "cap": cap, "thr": thr, "criteria_B": full, "model_k": o.get("k")})
+        if isinstance(full, core.ImplError) or isinstance(refit, core.ImplError) or o.get("k") != len(refit[0]) or refit[0] != full[: len(refit[0])]:
+            bad.append({"op": "em_stop:refit", "input": {**{k: scA[k] for k in ("w", "m", "v", "x", "um", "uv", "uw")}, "xB": xB, "cap": cap, "thr": thr}, "model": o,
+                        "impl": repr(refit) if isinstance(refit, core.ImplError) else {"iterations_on_refit": len(refit[0]), "criteria_on_refit": refit[0], "criteria_fresh_no_threshold": full}})
+
+
 def correspondence(ctx):
     bad = []
     corr_mstep(ctx, bad)
     corr_stop(ctx, bad, False)
     corr_stop(ctx, bad, True)
+    corr_refit(ctx, bad)
     return bad
 
 
@@ -280,6 +317,17 @@ def search(ctx):
             f["oracle"] = "monotone"
             fails.append(f)
             break
+    for i in range(ctx.budget(8, 80)):
+        scA, xB, cap, thr, start, refit = refit_pair(ctx, i)
+        ctx.count("search:refit")
+        ctx.case(["refit-s", core.tolist(xB), cap, thr], nontrivial=True)
+        if start is None or isinstance(refit, core.ImplError):
+            continue
+        crit, par = run_fit(dict(scA, **start), xB, cap, thr)
+        if isinstance(crit, core.ImplError) or crit != refit[0] or not all(np.array_equal(par[k], refit[1][k]) for k in par):
+            fails.append({"sig": "refit-differs-from-fresh-machine", "oracle": "refit", "what": f"second fit of the same GMMMachine: {len(refit[0])} iterations {refit[0]}; fresh machine from the same parameters: {crit!r} (cap {cap}, threshold {thr})",
+                          "input": {**{k: scA[k] for k in ("w", "m", "v", "x", "um", "uv", "uw", "thr", "floor")}, "xB": xB, "cap": cap, "conv_thr": thr}})
+            break
     if ctx.tier == "thorough" or ctx.broken:
         for use_dask in (False, True):
             for sc, xin, cap, thr, full, err in stop_scenarios(ctx, ctx.budget(8, 60), use_dask):
@@ -297,6 +345,18 @@ def search(ctx):
 
 def replay(d):
     sc = d["input"]
+    if d.get("oracle") == "refit":
+        for k in ("w", "m", "v", "x", "xB"):
+            sc[k] = np.asarray(sc[k], dtype=float)
+        g = mk(sc, max_fitting_steps=sc["cap"], convergence_threshold=sc["conv_thr"])
+        g.fit(sc["x"])
+        start = params_of(g)
+        with Recorder() as rec:
+            g.fit(sc["xB"])
+        crit, par = run_fit(dict(sc, **start), sc["xB"], sc["cap"], sc["conv_thr"])
+        if crit != list(rec.crit):
+            return {"sig": "refit-differs-from-fresh-machine", "what": f"{list(rec.crit)} vs {crit}"}
+        return None
     if d.get("oracle") == "stop":
         return oracle_stop(sc, sc["cap"], sc["conv_thr"], sc["dask"], sc["sizes"])
     return oracle_monotone(sc)
